@@ -43,7 +43,7 @@ def native_concat(values: t.Iterable[t.Any]) -> t.Any | None:
             # parse the string ourselves without removing leading spaces/tabs.
             parse(raw, mode="eval")
         )
-    except (ValueError, SyntaxError, MemoryError):
+    except (ValueError, SyntaxError, MemoryError, TypeError):
         return raw
 
 
